@@ -53,6 +53,12 @@ def computeProductApproxLiterals : List Nat := [64, 64, litAllOnes, litAllOnes, 
 def powerLiterals : List Nat := [litPowerMulA.toNat, litPowerMulB.toNat, litPowerShift, litPowerAdd.toNat]
 /-- `compute_error_scaled` -/
 def computeErrorScaledLiterals : List Nat := [63, 1, litErrorBias.toNat]
+/-- `compute_error`: `F::MANTISSA_SIZE as usize + 3`, `.1` -/
+def computeErrorLiterals : List Nat := [litPrecisionExtra, 1]
+/-- `lemire`: `fp.exp >= 0`, `num.mantissa + 1` -/
+def lemireLiterals : List Nat := [0, 1]
+/-- `full_multiplication`: `r >> 64` -/
+def fullMultiplicationLiterals : List Nat := [64]
 
 example : computeFloatLiterals =
     [0, 0, 0, 0, 3, 18446744073709551615, 27, 55, 63, 64, 3, 0, 1, 64, 1, 1, 1, 1, 1, 3, 1, 64, 3, 1, 1, 1, 2, 1, 1, 1] ∧
